@@ -163,7 +163,19 @@ func dynFocusSchema(r *rand.Rand) *schema.BodySchema {
 	for _, db := range svc.DependentBody {
 		db.DocsLink = &schema.DocsLink{URL: "https://example.com/docs/svc", Tooltip: "svc docs"}
 	}
-	return &schema.BodySchema{Blocks: map[string]*schema.BlockSchema{"resource": res, "svc": svc, "plug": plug, "plain": plain, "mods": mods}}
+	// the label that selects the body is not the first one
+	late := &schema.BlockSchema{MinItems: 1,
+		Labels:        []*schema.LabelSchema{{Name: "name"}, {Name: "kind", IsDepKey: true}, {Name: "alias"}},
+		Body:          &schema.BodySchema{Attributes: map[string]*schema.AttributeSchema{"note": {IsOptional: true, Constraint: schema.LiteralType{Type: cty.String}}}},
+		DependentBody: map[schema.SchemaKey]*schema.BodySchema{}}
+	for _, v := range []string{"aws", "gcp"} {
+		dk := schema.DependencyKeys{Labels: []schema.LabelDependent{{Index: 1, Value: v}}}
+		late.DependentBody[schema.NewSchemaKey(copyKeys(dk))] = &schema.BodySchema{
+			Attributes: map[string]*schema.AttributeSchema{v + "_size": {IsOptional: true, Constraint: schema.LiteralType{Type: cty.Number}}},
+			DocsLink:   &schema.DocsLink{URL: "https://example.com/docs/late/" + v, Tooltip: v + " docs"}}
+		depKeyIndex[late] = append(depKeyIndex[late], dk)
+	}
+	return &schema.BodySchema{Blocks: map[string]*schema.BlockSchema{"resource": res, "svc": svc, "plug": plug, "plain": plain, "mods": mods, "late": late}}
 }
 
 func genType(r *rand.Rand, d int) cty.Type {
